@@ -88,6 +88,12 @@ func (h *harness) judge(c *engine.Case, modelReply string) verdict {
 		return verdict{Class: "harness", Cat: "compile", What: err.Error()}
 	}
 	v := verdict{Real: real}
+	var mo *engine.Observed
+	var moErr error
+	if modelReply != "" {
+		mo, moErr = engine.ParseModelReply(modelReply)
+		v.Model = mo
+	}
 	sync, err := h.syncRun(c)
 	if err != nil {
 		return verdict{Class: "harness", Cat: "compile", What: err.Error()}
@@ -115,12 +121,10 @@ func (h *harness) judge(c *engine.Case, modelReply string) verdict {
 		return v
 	}
 	if modelReply != "" {
-		mo, err := engine.ParseModelReply(modelReply)
-		if err != nil {
-			v.Class, v.Cat, v.What = "correspondence", "reply", err.Error()
+		if moErr != nil {
+			v.Class, v.Cat, v.What = "correspondence", "reply", moErr.Error()
 			return v
 		}
-		v.Model = mo
 		if d := sameObs(real, mo); d != "" {
 			v.Class, v.Cat, v.What = "correspondence", strings.SplitN(d, ":", 2)[0], d
 		}
@@ -365,7 +369,7 @@ func (h *harness) exhaustive() {
 
 func (h *harness) random() {
 	run := h.run
-	n := run.Scale(20000, 250000)
+	n := run.Scale(40000, 250000)
 	var pending []*engine.Case
 	for i := 0; i < n; i++ {
 		r := run.Rand.Fork()
